@@ -12,12 +12,15 @@ m=json.load(open(d+'/meta.json'))
 m['quick_check_verdict_current']=res
 import subprocess
 if res: m['applies_to_repo_commit']=subprocess.check_output(['git','-C','/repo','log','--format=%h','-1']).decode().strip()
-if 'benign' in m.get('kind',''):
+if m.get('disputed'):
+    pass
+elif 'benign' in m.get('kind',''):
     m['silent']='MISSED' in res
 elif 'MISSED' in m.get('quick_check_verdict','') and 'CAUGHT' in res:
     m['missed_by_the_first_version_of_the_check']=True
 json.dump(m,open(d+'/meta.json','w'),indent=1)
 PY
   case "$id" in *-b[0-9]*) res="(benign control; MISSED = silent, as required) $res";; esac
+  grep -q '"disputed": true' $d/meta.json && res="(disputed, not counted) $res"
   echo "$id | $res"
 done
